@@ -8,11 +8,11 @@ HOOK_COMMITS = []
 # id -> (technique, level text, level note, design ref)
 CLAIMED = {
  "C03": ("runtime monitor: socket zoo on each medium fed with arbitrary bytes, valid frames of every protocol, structured mutants (checksum-repaired), replies to the stack's own frames and the upstream fuzz seeds; catch_unwind + tx cap + watchdog, then an independent liveness probe",
-         "Exploration by runtime monitoring: ~10^5 (quick) / ~1.5*10^6 (thorough) sequences of 1..64 frames interleaved with time advances on Ethernet, raw-IP and IEEE 802.15.4 interfaces carrying TCP (listening/connecting/established), UDP, ICMP, raw, DNS and DHCPv4 sockets, multicast groups and both reassemblers. Every poll/poll_ingress_single/poll_egress/poll_at runs under catch_unwind with a 40 000-frames-per-poll cap and a 15 s watchdog; afterwards an ARP/NS + echo probe from an identity the fuzz traffic never used must be answered. Failing histories are minimised. Profiles chk (overflow checks on) and rel.",
+         "Exploration by runtime monitoring: ~10^5 (quick) / ~1.5*10^6 (thorough) sequences of 1..64 frames interleaved with time advances on Ethernet, raw-IP and IEEE 802.15.4 interfaces carrying TCP (listening/connecting/established), UDP, ICMP, raw, DNS and DHCPv4 sockets, multicast groups and both reassemblers. Every poll/poll_ingress_single/poll_egress/poll_at runs under catch_unwind with a 40 000-frames-per-poll cap and a 15 s watchdog; afterwards an ARP/NS + echo probe from an identity the fuzz traffic never used must be answered, and - after the reassembly timeout has passed - an echo request delivered as two fragments in reverse order (IPv4) or as FRAG1/FRAGN (6LoWPAN) as well. Failing histories are minimised. Profiles chk (overflow checks on) and rel.",
          "Trusted: the probe judge (independent parsers), the watchdog. Frames are built with smoltcp's own emitters where convenient - the oracle is 'no panic / returns / still answers', not frame correctness. A panic in poll_at is reported under its own prefix.",
          "DESIGN.md §4 C03"),
  "C09": ("runtime monitor: random socket programs with unique datagram ids; egress oracle = wire sequence per socket equals accepted sends (exactly once, in order, unmodified), ingress oracle = FIFO model of what may and must be in each receive buffer",
-         "Exploration by runtime monitoring: 130 000 (quick) / ~3*10^6 (thorough) random programs of bind/close/send/send_slice/send_with/recv/recv_slice/peek/peek_slice on 1..4 UDP, ICMP and raw sockets (IPv4/IPv6, metadata rings 1..8, payload rings 1..4096 forcing wrap-around padding) interleaved with polls, blocked-device windows, token caps, immediate/late/absent neighbor resolution and inbound datagrams (fragmented, broadcast, bad checksums, wrong MAC). Every datagram carries a unique id; independent reassembly of IPv4 fragments.",
+         "Exploration by runtime monitoring: 130 000 (quick) / ~3*10^6 (thorough) random programs of bind/close/send/send_slice/send_with/recv/recv_slice/peek/peek_slice on 1..4 UDP, ICMP and raw sockets (IPv4/IPv6, metadata rings 1..8, payload rings 1..4096 forcing wrap-around padding) interleaved with polls, blocked-device windows, token caps, immediate/late/absent neighbor resolution and inbound datagrams (fragmented, broadcast, bad checksums, wrong MAC). Every datagram carries a unique id; independent reassembly of IPv4 fragments. Part icmp-errors: ICMP sockets bound to a UDP/TCP port receive exactly the error messages that quote datagrams from that port, with the sender of the error as source.",
          "Trusted: harness/src/mon/c09.rs models, harness/src/sim/dgram.rs, harness/src/indep/x3. A datagram queued behind an unresolvable head of the same socket is not owed; among several matching UDP sockets any one may deliver.",
          "DESIGN.md §4 C09"),
  "C10": ("runtime monitor: independent frame validator (written from the RFCs) applied to every frame emitted by dedicated traffic scenarios on all three media, all MTU classes and checksum-offload settings, with garbage-prefilled transmit buffers",
@@ -24,7 +24,7 @@ CLAIMED = {
          "Trusted: harness/src/indep/x3/frag4.rs, the range-set model in harness/src/mon/c12.rs. Known finding: the single Fragmenter is overwritten by a second oversized datagram (known_findings.json).",
          "DESIGN.md §4 C12"),
  "C18": ("runtime monitor: the harness is the DHCP server/network (independent DHCP codec); event stream, poll_at and emitted messages judged against an upper bound of the lease computed from the delivered valid ACKs",
-         "Exploration by runtime monitoring: ~39 000 scripted histories (quick) with OFFER/ACK/NAK/other, stale or foreign xid/chaddr, missing server-id, bad masks, non-unicast yiaddr, lease/T1/T2 in {absent,0,1,equal,inverted,60,2^32-1}, duplicates, reordering, loss, unanswered ARP, time advances over several leases, retry configurations and max-lease settings, polled by poll_at plus random early and late polls. Configured only after a valid ACK delivered after a transmission with the matching xid; Deconfigured by the first poll at or after E = max over valid ACKs of (delivery + min(lease,max_lease)); poll_at <= E while configured; renew before rebind before expiry; bounded solicitation spacing.",
+         "Exploration by runtime monitoring: ~39 000 scripted histories (quick) with OFFER/ACK/NAK/other, stale or foreign xid/chaddr, missing server-id, bad masks, non-unicast yiaddr, lease/T1/T2 in {absent,0,1,equal,inverted,60,2^32-1}, duplicates, reordering, loss, unanswered ARP, time advances over several leases, retry configurations and max-lease settings, polled by poll_at plus random early and late polls. Configured only after a valid ACK delivered after a transmission with the matching xid; Deconfigured by the first poll at or after E = (delivery + min(lease,max_lease)) of the most recent ACK the client is certain to have taken, raised by later ACKs it may have taken; poll_at <= E while configured; renew before rebind before expiry; bounded solicitation spacing.",
          "Trusted: harness/src/indep/x2/dhcp.rs, harness/src/sim/dhcp_net.rs. 'Valid ACK' is judged permissively (weakens the oracle only). Runs without guaranteed neighbor resolution report expiry problems under an ':arp-unreliable' suffix (recorded known finding).",
          "DESIGN.md §4 C18"),
  "C19": ("runtime monitor: the harness answers every DNS query (independent DNS codec with loop-safe decompression) with responses that are valid or wrong in exactly one respect, truncated, compressed in hostile ways or CNAME-chained; results, timing and termination judged",
